@@ -92,6 +92,28 @@ func decorateForHook(g *world.Generated, r *rand.Rand) {
 	g.Materialize()
 }
 
+// reference reading of a media type: token "/" token, anything may follow (parameters are ignored)
+func refMediaType(s string) (sup, sub string, ok bool) {
+	tchar := func(b byte) bool {
+		return b >= '0' && b <= '9' || b >= 'a' && b <= 'z' || b >= 'A' && b <= 'Z' || strings.IndexByte("!#$%&'*+-.^_`|~", b) >= 0
+	}
+	i := 0
+	for i < len(s) && tchar(s[i]) {
+		i++
+	}
+	if i == 0 || i >= len(s) || s[i] != '/' {
+		return "", "", false
+	}
+	j := i + 1
+	for j < len(s) && tchar(s[j]) {
+		j++
+	}
+	if j == i+1 {
+		return "", "", false
+	}
+	return s[:i], s[i+1 : j], true
+}
+
 type hookRecord struct {
 	Argv  []string `json:"argv"`
 	Stdin string   `json:"stdin"`
@@ -211,6 +233,28 @@ func TestVerifC20(t *testing.T) {
 				}
 				// independent of what the accessor says: a link in running text declares no media type, so the hook must be told "*/*"
 				// whatever was opened earlier in this process
+				if node := byKey[wk.Key(unwrapped)]; node != nil && k > len(node.BodyLinks) && k-len(node.BodyLinks) <= len(node.Attach) && m != nil {
+					// an attachment: the type its own JSON declares; failing that, what its own kind implies; never anything taken from the post around it
+					att := node.Attach[k-len(node.BodyLinks)-1]
+					wantE, wantSup, wantSub := "*/*", "*", "*"
+					if decl, isStr := att["mediaType"].(string); isStr {
+						if sup, sub, ok := refMediaType(decl); ok {
+							wantE, wantSup, wantSub = sup+"/"+sub, sup, sub
+						}
+					}
+					if wantE == "*/*" {
+						switch att["type"] {
+						case "Image", "Audio", "Video":
+							wantSup = strings.ToLower(att["type"].(string))
+							wantE = wantSup + "/*"
+						}
+					}
+					c.Count("attachment_types_checked", 1)
+					if m.Essence != wantE || m.Supertype != wantSup || m.Subtype != wantSub {
+						c.Violation("hook:attachment-type", fmt.Sprintf("link %d of %s is the attachment %v: expected media type %s (%s, %s), reported %s (%s, %s)", k, wk.Key(unwrapped), att, wantE, wantSup, wantSub, m.Essence, m.Supertype, m.Subtype),
+							map[string]any{"hook": hook, "item": wk.Key(cur), "via": fmt.Sprintf("SelectLink(%d)", k), "link": ev.Trunc(l, 200)})
+					}
+				}
 				if node := byKey[wk.Key(unwrapped)]; node != nil && k <= len(node.BodyLinks) && m != nil {
 					c.Count("body_link_types_checked", 1)
 					if m.Essence != "*/*" || m.Supertype != "*" || m.Subtype != "*" {
